@@ -22,6 +22,9 @@ structure Case where
   /-- the exact model's outputs on the same operands (used where the property IS "equals the exact composition") -/
   exact : Array (Option Rat) := #[]
   exactCls : String := ""
+  /-- value rejected by check_is_one / check_unit_interval (hook), when the implementation failed -/
+  rej : Option Rat := none
+  rejSpecial : Bool := false
 
 def Case.eps (c : Case) : Rat := c.fmt.eps
 
@@ -413,8 +416,338 @@ def oracleC11 (c : Case) : Option (List String) :=
           else check "C11.equals_composition" (closeQ τ w.2 e.2 && closeList τ w.1 e.1)
     wfs ++ cmp
 
+/-- C20: equality / approximate equality of binomial opinions is component-wise.
+    Decides, from the exact operand values, what the answer must be whenever no component sits on a
+    tolerance boundary (margin 2^-20 relative). -/
+def oracleC20 (c : Case) : Option (List String) :=
+  match c.op with
+  | "bcmp" =>
+    match allSome c.inp with
+    | none => none
+    | some xs =>
+    let kind := c.ints.getD 0 0
+    let maxUlps : Rat := (c.ints.getD 1 0 : Nat)
+    let eps := xs.getD 8 0
+    let maxRel := xs.getD 9 0
+    if eps < 0 || maxRel < 0 then none else
+    let comps := (List.range 4).map fun i => (xs.getD i 0, xs.getD (4 + i) 0)
+    let mlo : Rat := 1 - 1 / 1048576
+    let mhi : Rat := 1 + 1 / 1048576
+    -- per component: some true = certainly equal, some false = certainly unequal, none = boundary
+    let verdict (p : Rat × Rat) : Option Bool :=
+      let d := absQ (p.1 - p.2)
+      let sameSign := decide ((0 ≤ p.1) ↔ (0 ≤ p.2))
+      let ulps := absQ (SLV.ulpIdx c.fmt p.1 - SLV.ulpIdx c.fmt p.2)
+      match kind with
+      | 0 => some (decide (d = 0))
+      | 1 => if d = 0 then some true else if d < eps * mlo then some true else if d > eps * mhi then some false else none
+      | 2 =>
+        let largest := maxQ (absQ p.1) (absQ p.2)
+        let tol := maxQ eps (largest * maxRel)
+        if d = 0 then some true else if d < tol * mlo then some true else if d > tol * mhi then some false else none
+      | _ =>
+        if d = 0 then some true
+        else if d < eps * mlo then some true
+        else if sameSign && decide (ulps ≤ maxUlps) then some true
+        else if d > eps * mhi then some false else none
+    let vs := comps.map verdict
+    if vs.any (· == none) then none else
+    let expect := vs.all (· == some true)
+    if c.cls != "ok" then some ["C20.no_value"] else
+    some (check (if expect then "C20.equal_components_compare_equal" else "C20.single_component_difference_detected")
+      (c.flags == [expect]))
+  | "meq" =>
+    match allSome c.inp with
+    | none => none
+    | some xs =>
+    let n := if c.ints.length ≥ 2 then c.ints.getD 0 0 * c.ints.getD 1 0 else c.ints.getD 0 0
+    let w := 2 * n + 1
+    let l := slice xs 0 w
+    let r := slice xs w w
+    let sEq := decide (slice xs 0 (n + 1) = slice xs w (n + 1))
+    let oEq := decide (l = r)
+    if c.cls != "ok" then some ["C20.no_value"] else
+    some (check "C20.mul_eq_iff" (c.flags == [sEq, oEq]))
+  | _ => none
+
+/-- distance of a rejected value from the admissible set of the check named by `label` -/
+def rejDistance (label : String) (v : Rat) : Rat :=
+  if label == "sum(b)+u" || label == "sum(a)" || label == "b+d+u" then absQ (v - 1)
+  else if v < 0 then -v else if v > 1 then v - 1 else 0
+
+/-- a failure is a rounding residue when the rejected value is within 1e-9 of the admissible set -/
+def isResidue (c : Case) : Bool :=
+  match c.rej with
+  | some v => decide (rejDistance c.label v ≤ 1 / 1000000000)
+  | none => false
+
+/-- C01: checked constructors admit exactly the well-formed opinions -/
+def oracleC01 (c : Case) : Option (List String) :=
+  let e := c.eps
+  let isB := c.op == "bsimplex_new" || c.op == "bop_new"
+  if !(isB || c.op == "simplex_new" || c.op == "opinion_new") then none else
+  let n := if isB then 2 else c.ints.getD 0 0
+  let hasA := c.op == "opinion_new" || c.op == "bop_new"
+  let accepted := c.cls == "ok"
+  let rejected := c.cls == "err" || c.cls == "panic"
+  if !(accepted || rejected) then some ["C01.bad_class"] else
+  match allSome c.inp with
+  | none => some (check "C01.specials_rejected" rejected)
+  | some xs =>
+    let b := slice xs 0 n
+    let u := xs.getD n 0
+    let a := if !hasA then [] else if isB then [xs.getD 3 0] else slice xs (n + 1) n
+    let band (q : Rat) : Bool := decide (-e ≤ q) && decide (q ≤ 1 + 4 * e)
+    let slack : Rat := (n + 2) * e
+    let sumBU := sumQ b + u
+    let sumA := sumQ a
+    -- exactly well-formed ⇒ accepted
+    let wf0 := b.all (fun q => decide (0 ≤ q)) && decide (0 ≤ u) && decide (sumBU = 1)
+      && (!hasA || (a.all (fun q => decide (0 ≤ q) && decide (q ≤ 1)) && (isB || decide (sumA = 1))))
+    -- some single constraint missed by a visible margin ⇒ rejected
+    let far (q : Rat) : Bool := decide (q < -(e + slack)) || decide (q > 1 + 4 * e + slack)
+    let farOne (q : Rat) : Bool := decide (q < 1 - 2 * e - slack) || decide (q > 1 + 4 * e + slack)
+    let missed := b.any far || far u || farOne sumBU || (hasA && (a.any far || (!isB && farOne sumA)))
+    let r1 := if wf0 then check "C01.accepts_wf" accepted else []
+    let r2 := if missed then check "C01.rejects_margin" rejected else []
+    let r3 := if accepted then
+        (match allSome c.out with
+         | none => ["C01.non_finite_stored"]
+         | some out =>
+           let stored := out.toList
+           let given := (b ++ [u] ++ a)
+           check "C01.stores" (stored == given)
+             ++ check "C01.accepted_near_wf"
+                 (b.all band && band u && decide (absQ (sumBU - 1) ≤ 4 * e + slack)
+                   && (!hasA || (a.all band && (isB || decide (absQ (sumA - 1) ≤ 4 * e + slack)))))
+             ++ (if isB then [] else
+                  check "C01.vacuous_iff" (c.flags.getD 0 false == (decide (1 - 2 * e ≤ u) && decide (u ≤ 1 + 4 * e)))
+                  ++ check "C01.dogmatic_iff" (c.flags.getD 1 false == decide (absQ u ≤ e))))
+      else []
+    some (r1 ++ r2 ++ r3)
+
+/-- C04: deduction is well-formed and obeys total probability -/
+def oracleC04 (c : Case) : Option (List String) :=
+  let (n, m) := if c.op == "deduce2" then (c.ints.getD 0 0 * c.ints.getD 1 0, c.ints.getD 2 0)
+                else (c.ints.getD 0 0, c.ints.getD 1 0)
+  if !(c.op == "deduce" || c.op == "deduce_with" || c.op == "deduce2") then none else
+  match allSome c.inp with
+  | none => none
+  | some xs =>
+  let (bx, ux, ax) := opinionAt xs 0 n
+  let cs := condAt xs (2 * n + 1) n m
+  let fb := slice xs (2 * n + 1 + n * (m + 1)) m
+  if !(wfOpinion 0 bx ux ax && condWf 0 cs) then none else
+  let raw := (List.range m).map fun y => sumQ (List.zipWith (fun a cc => a * cc.1.getD y 0) ax cs)
+  let t := sumQ raw
+  let allVac := cs.all fun cc => decide (1 - 2 * c.eps ≤ cc.2)
+  let ayOpt : Option (List Rat) :=
+    if allVac || t = 0 then (if c.op == "deduce" then none else some fb) else some (raw.map (· / t))
+  match ayOpt with
+  | none => none
+  | some ay =>
+  if !(wfBaseRate (tauSpec c.fmt) ay) then none else
+  let τ := tauSpec c.fmt * 16
+  withValue c "C04" fun out =>
+    let (b, u, a) := opinionAt out 0 m
+    let px := projQ bx ux ax
+    let want := (List.range m).map fun y =>
+      sumQ (List.zipWith (fun p cc => p * (cc.1.getD y 0 + ay.getD y 0 * cc.2)) px cs)
+    let absolute : List String :=
+      match (List.range n).find? (fun x => decide (bx.getD x 0 = 1)) with
+      | some x0 =>
+        let cc := cs.getD x0 ([], 0)
+        check "C04.absolute" (closeList τ b cc.1 && closeQ τ u cc.2)
+      | none => []
+    check "C04.wf" (wfSimplex (τ * (m + 1)) b u)
+      ++ check "C04.base_rate" (closeList τ a ay)
+      ++ check "C04.total_probability" (closeList τ (projQ b u ay) want)
+      ++ absolute
+
+/-- C06: product is the well-formed, maximally uncertain independent joint -/
+def oracleC06 (c : Case) : Option (List String) :=
+  if !(c.op == "prod2" || c.op == "prod3") then none else
+  match allSome c.inp with
+  | none => none
+  | some xs =>
+  let k := if c.op == "prod2" then 2 else 3
+  let dims := (List.range k).map fun i => c.ints.getD i 0
+  let offs : List Nat := (List.range k).map fun i => (((List.range i).map fun j => 2 * dims.getD j 0 + 1).foldl (· + ·) 0)
+  let ops := (List.range k).map fun i => opinionAt xs (offs.getD i 0) (dims.getD i 0)
+  if !(ops.all fun w => wfOpinion 0 w.1 w.2.1 w.2.2) then none else
+  -- a rejection by rounding residue is C19's business, not C06's
+  if c.cls == "panic" && isResidue c then none else
+  let τ := tauSpec c.fmt * 16
+  let outer (vs : List (List Rat)) : List Rat :=
+    vs.foldl (fun acc v => acc.flatMap fun x => v.map fun y => x * y) [1]
+  let P := outer (ops.map fun w => projQ w.1 w.2.1 w.2.2)
+  let A := outer (ops.map fun w => w.2.2)
+  let B := outer (ops.map fun w => w.1)
+  let N := P.length
+  withValue c "C06" fun out =>
+    let (b, u, a) := opinionAt out 0 N
+    let uhat := (List.zip (List.zip P B) A).foldl
+      (fun (acc : Option Rat) (t : (Rat × Rat) × Rat) => if t.2 > 0 then
+          let v := (t.1.1 - t.1.2) / t.2
+          match acc with | none => some v | some m => some (minQ m v)
+        else acc) none
+    check "C06.wf" (wfOpinion (τ * (N + 1)) b u a)
+      ++ check "C06.outer_base_rate" (closeList τ a A)
+      ++ check "C06.outer_projection" (closeList τ (projQ b u a) P)
+      ++ check "C06.mass_ge_product" ((List.zip b B).all fun (t : Rat × Rat) => decide (t.2 - τ ≤ t.1))
+      ++ (match uhat with
+          | some uh => check "C06.max_u" (closeQ τ u uh)
+          | none => [])
+
+/-- C10: trust discounting -/
+def oracleC10 (c : Case) : Option (List String) :=
+  match allSome c.inp with
+  | none => none
+  | some xs =>
+  let τ := tauSpec c.fmt
+  let e := c.eps
+  match c.op with
+  | "discount" | "discount_chain" =>
+    let n := c.ints.getD 0 0
+    let k := if c.op == "discount" then 1 else c.ints.getD 1 0
+    let (b, u, a) := opinionAt xs 0 n
+    let ts := slice xs (2 * n + 1) k
+    let simplexOnly := c.variant.getD 2 "" == "s"
+    if !(wfOpinion 0 b u a && ts.all (fun t => decide (0 ≤ t) && decide (t ≤ 1))) then none else
+    let t := ts.foldl (· * ·) 1
+    withValue c "C10" fun out =>
+      let b' := slice out 0 n
+      let u' := out.getD n 0
+      let a' := slice out (n + 1) n
+      -- a vacuous-by-guard input (or intermediate) is replaced by the vacuous opinion: allow 2eps·k
+      let slack := τ + 2 * e * k
+      check "C10.formula_belief" (closeList slack b' (b.map (· * t)))
+        ++ check "C10.formula_uncertainty" (closeQ slack u' (1 - t * (1 - u)))
+        ++ check "C10.wf" (wfSimplex (τ * (n + 1)) b' u')
+        ++ (if simplexOnly then [] else
+              check "C10.base_rate_unchanged" (a' == a)
+              ++ check "C10.projection" (closeList slack (projQ b' u' a')
+                  ((List.zip (projQ b u a) a).map fun pa => t * pa.1 + (1 - t) * pa.2)))
+        ++ (if t = 0 || u = 1 then check "C10.vacuous" (closeQ τ u' 1 && b'.all (fun v => closeQ τ v 0)) else [])
+        ++ (if t = 1 then check "C10.one_unchanged" (closeList (2 * e) b' b && closeQ (2 * e) u' u) else [])
+  | "btrans_unc" | "btrans_bsr" =>
+    let x := qbAt xs 0
+    let t := xs.getD 4 0
+    if !(x.wf 0 && decide (0 ≤ t) && decide (t ≤ 1)) then none else
+    withValue c "C10" fun out =>
+      let r := qbAt out 0
+      check "C10.trans_eq_discount"
+        (QB.close τ r ⟨t * x.b, t * x.d, 1 - t * (1 - x.u), x.a⟩)
+        ++ check "C10.trans_wf" (r.wf (4 * τ))
+  | "btrans_opp" =>
+    let x := qbAt xs 0
+    let tb := xs.getD 4 0
+    let td := xs.getD 5 0
+    if !(x.wf 0 && decide (0 ≤ tb) && decide (0 ≤ td) && decide (tb + td ≤ 1)) then none else
+    withValue c "C10" fun out =>
+      let r := qbAt out 0
+      check "C10.trans_opp_formula"
+        (QB.close τ r ⟨tb * x.b + td * x.d, tb * x.d + td * x.b, 1 - (tb + td) * (1 - x.u), x.a⟩)
+        ++ check "C10.trans_wf" (r.wf (4 * τ))
+  | _ => none
+
+/-- C13: binomial opinions are the binary case of multinomial ones -/
+def oracleC13 (c : Case) : Option (List String) :=
+  match allSome c.inp with
+  | none => none
+  | some xs =>
+  let τ := tauSpec c.fmt
+  let e := c.eps
+  match c.op with
+  | "bconv" =>
+    let x := qbAt xs 0
+    if c.cls != "ok" then some ["C13.no_value"] else
+    match allSome c.out with
+    | none => some ["C13.non_finite"]
+    | some out =>
+      let (b, u, a) := opinionAt out 0 2
+      let back := qbAt out 5
+      some (check "C13.roundtrip" (decide (back.b = x.b) && decide (back.d = x.d) && decide (back.u = x.u) && decide (back.a = x.a))
+        ++ check "C13.to_opinion" (b == [x.b, x.d] && decide (u = x.u) && decide (a.getD 0 0 = x.a) && closeQ (2 * e) (a.getD 1 0) (1 - x.a))
+        ++ check "C13.projection" (closeQ τ ((projQ b u a).getD 0 0) x.proj))
+  | "bvs" =>
+    let x := qbAt xs 0
+    let y := qbAt xs 4
+    let kind := c.ints.getD 0 0
+    if !(x.wf (4 * e) && y.wf (4 * e)) then none else
+    -- uncertainties in (0, eps] are excluded: the two families deliberately classify them differently
+    let band (v : Rat) : Bool := decide (0 < v) && decide (v ≤ e)
+    if band x.u || band y.u then none else
+    -- equal-weight averaging / weighting of two dogmatic opinions: gamma must be 1/2
+    if (kind == 1 || kind == 2) && x.u = 0 && y.u = 0 && xs.getD 8 0 ≠ 1 / 2 then none else
+    let bothDog := decide (x.u = 0) && decide (y.u = 0)
+    if c.cls == "err" then
+      some (check "C13.cfuse_err_only_two_dogmatic" (kind == 0 && bothDog))
+    else
+    withValue c "C13" fun out =>
+      let l := qbAt out 0
+      let r := qbAt out 4
+      -- nearly vacuous operands [1-2eps,1) are vacuous to the multinomial guard: 4eps slack
+      let slack := τ + 4 * e
+      check (match kind with | 0 => "C13.cfuse_eq_acm" | 1 => "C13.afuse_eq_avg" | _ => "C13.wfuse_eq_wgh")
+        (QB.close slack l r)
+        ++ (if kind == 0 && bothDog then ["C13.cfuse_two_dogmatic_should_err"] else [])
+  | _ => none
+
+/-- C19: self-validating operators never reject a correctly rounded result.
+    A failure is legitimate only when the exact result is itself ill-formed or undefined. -/
+def oracleC19 (c : Case) : Option (List String) :=
+  match allSome c.inp with
+  | none => none
+  | some xs =>
+  let failed := c.cls == "err" || c.cls == "panic"
+  let e4 := 4 * c.eps
+  let legit : Option Bool :=  -- some true: failure legitimate; some false: must not fail; none: outside domain
+    match c.op with
+    | "bmul" => let x := qbAt xs 0; let y := qbAt xs 4
+      if !(x.wf 0 && y.wf 0) then none else some (decide (x.a * y.a = 1))
+    | "bcomul" => let x := qbAt xs 0; let y := qbAt xs 4
+      if !(x.wf 0 && y.wf 0) then none else some (decide (x.a = 0) && decide (y.a = 0))
+    | "bcfuse" => let x := qbAt xs 0; let y := qbAt xs 4
+      if !(x.wf e4 && y.wf e4) then none else
+      if (decide (0 < x.u) && decide (x.u ≤ c.eps)) || (decide (0 < y.u) && decide (y.u ≤ c.eps)) then none
+      else some (decide (x.u = 0) && decide (y.u = 0))
+    | "bafuse" | "bwfuse" => let x := qbAt xs 0; let y := qbAt xs 4; let g := xs.getD 8 0
+      if !(x.wf e4 && y.wf e4 && decide (0 ≤ g) && decide (g ≤ 1)) then none else some false
+    | "bdeduce" =>
+      let x := qbAt xs 0; let c0 := triAt xs 4; let c1 := triAt xs 7; let ay := xs.getD 10 0
+      if !(x.wf 0 && triWf c0 && triWf c1) then none else
+      if !(decide (0 < x.proj) && decide (x.proj < 1) && decide (0 < x.a) && decide (x.a < 1)
+            && decide (0 < ay) && decide (ay < 1)) then none else some false
+    | "btrans_unc" | "btrans_bsr" => let x := qbAt xs 0; let t := xs.getD 4 0
+      if !(x.wf 0) then none else some (!(decide (0 ≤ t) && decide (t ≤ 1)))
+    | "btrans_opp" => let x := qbAt xs 0; let tb := xs.getD 4 0; let td := xs.getD 5 0
+      if !(x.wf 0) then none else some (!(decide (0 ≤ tb) && decide (0 ≤ td) && decide (tb + td ≤ 1)))
+    | "prod2" | "prod3" =>
+      if c.variant.getD 0 "" != "M" then none else
+      let k := if c.op == "prod2" then 2 else 3
+      let dims := (List.range k).map fun i => c.ints.getD i 0
+      let offs := (List.range k).map fun i => (((List.range i).map fun j => 2 * dims.getD j 0 + 1).foldl (· + ·) 0)
+      let ops := (List.range k).map fun i => opinionAt xs (offs.getD i 0) (dims.getD i 0)
+      if !(ops.all fun w => wfOpinion 0 w.1 w.2.1 w.2.2) then none else some false
+    | _ => none
+  match legit with
+  | none => none
+  | some true => some []     -- a failure here is legitimate; a value is fine too (tolerance)
+  | some false =>
+    if !failed then some [] else
+    some [if isResidue c then "C19.rejected_rounding_residue(" ++ c.label ++ ")"
+          else "C19.rejected_ill_formed_result(" ++ c.label ++ ")"]
+
 def oracle (c : Case) : Option (List String) :=
   match c.prop with
+  | "C01" => oracleC01 c
+  | "C04" => oracleC04 c
+  | "C06" => oracleC06 c
+  | "C10" => oracleC10 c
+  | "C13" => oracleC13 c
+  | "C19" => oracleC19 c
+  | "C20" => oracleC20 c
   | "C05" => oracleC05 c
   | "C11" => oracleC11 c
   | "C08" => oracleC08 c
